@@ -64,6 +64,7 @@ Fixpoint anS (p : prog) (S : summ) (e : env) (s : stmt) : list mut * bool :=
   | Mut m k => ([(m, k)], true)
   | Call f => (match lookup p f with Some _ => sget S f | None => [] end, true)
   | RunLua => ([], true)
+  | IncV | DecV => ([], true)
   end.
 
 Definition stepS (p : prog) (e : env) (S : summ) : summ :=
@@ -192,6 +193,8 @@ Section Sound.
       unfold inductive in HS. rewrite forallb_forall in HS. specialize (HS (f, body) (lookup_in _ _ _ H)). simpl in HS.
       eapply subset_in; eauto.
     - cbn [anS fst snd]. rewrite H. split; [apply covered_nil | auto].
+    - split; [apply covered_nil | auto].
+    - split; [apply covered_nil | auto].
     - split; [apply covered_nil | auto].
     - cbn [anS fst snd]. split; [|auto].
       assert (Hg' : good e' = true) by (eapply good_rel; eauto).
